@@ -985,6 +985,7 @@ func (m *M) pushFrame(p *path, fr *Frame, fn *ssa.Function, bind []Value, args [
 		id += fmt.Sprintf("#d%d", len(fr.Defers))
 	}
 	nf := &Frame{Fn: fn, ID: id, Loops: map[int]int{}, CallSite: site, Bind: bind, IsDefer: isDefer}
+	m.funcs[fn.String()] = true
 	for i, prm := range fn.Params {
 		m.set(p, nf, prm, args[i])
 	}
@@ -1129,6 +1130,9 @@ func (m *M) callFn(p *path, fr *Frame, ci ssa.CallInstruction, fn *ssa.Function,
 		return true
 	}
 	if handled, cont := m.intrinsic(p, fr, ci, fn, args, isDefer, work); handled {
+		if !strings.HasSuffix(fnPkg(fn), "/vrt") {
+			m.stubs[fn.String()] = true
+		}
 		return cont
 	}
 	m.pushFrame(p, fr, fn, bind, args, ci.Value(), isDefer)
@@ -1145,6 +1149,7 @@ func (m *M) spawnGated(p *path, fr *Frame, ci ssa.Instruction, fn *ssa.Function,
 	m.threads[th].Parent = p.cfg.Th
 	m.threads[th].Site = m.pos(ci)
 	nf := &Frame{Fn: fn, ID: fmt.Sprintf("T%d:%s", th, fn.Name()), Loops: map[int]int{}, Bind: bind}
+	m.funcs[fn.String()] = true
 	for i, prm := range fn.Params {
 		m.set(p, nf, prm, args[i])
 	}
